@@ -36,7 +36,7 @@ class CCodeGenerator:
         self.switch_options = None
         self.static_counter = 0  # Unique number to make static vars unique
         int_types = {2: ir.i16, 4: ir.i32, 8: ir.i64}
-        uint_types = {2: ir.i16, 4: ir.u32, 8: ir.u64}
+        uint_types = {2: ir.u16, 4: ir.u32, 8: ir.u64}
         int_size = self.context.arch_info.get_size("int")
         long_size = self.context.arch_info.get_size("long")
         self.ptr_size = self.context.arch_info.get_size("ptr")
